@@ -170,6 +170,16 @@ func genC17(rt *rapid.T) C17Case {
 	var c C17Case
 	c.MainKind = rapid.SampledFrom([]string{"valid", "valid", "valid", "valid", "missing", "malformed", "dir", "empty", "none"}).Draw(rt, "mainkind")
 	c.Main = genDB(rt, 14)
+	for i := range c.Main {
+		switch rapid.IntRange(0, 11).Draw(rt, "wide") {
+		case 0:
+			c.Main[i].Command += " " + rapid.SampledFrom(wideTexts).Draw(rt, "widecmd")
+		case 1:
+			c.Main[i].Niche = rapid.SampledFrom(wideTexts).Draw(rt, "wideniche")
+		case 2:
+			c.Main[i].Description = rapid.SampledFrom(wideTexts).Draw(rt, "widedesc") + " " + c.Main[i].Description
+		}
+	}
 	if rapid.Bool().Draw(rt, "hasnb") {
 		c.Notebook = genDB(rt, 4)
 	}
